@@ -321,8 +321,7 @@ def _(c):
     c.may_raise("ValueError")
 
 
-@contract(B + "._update_search_bounds_", serves=["C18"])
-def _(c):
+def search_bounds_contract(c, props):
     """The mesh-rounded search box lies inside the (transformed) hard box and is not empty: the hard box contains the unit
     plausible box [-1, 1] and the search mesh size is at most 1, so a grid point survives on each side of 0.
     Proved for finite (transformed) hard bounds; for an unbounded coordinate both roundings leave the infinity alone
@@ -332,10 +331,17 @@ def _(c):
     c.arr("self.optim_state['ub']", 2, [1, "self.D"])
     c.reals("self.optim_state['search_mesh_size']")
     c.let(m="self.optim_state['search_mesh_size']")
-    c.req("mesh", "m > 0 and m <= 1", props=["C18"])
-    c.req("hard_box_contains_unit_plausible_box", "forall(self.D, lambda j: self.optim_state['lb'][0][j] <= -1 and self.optim_state['ub'][0][j] >= 1)", props=["C18"])
+    c.req("mesh", "m > 0 and m <= 1", props=props)
+    c.req("hard_box_contains_unit_plausible_box", "forall(self.D, lambda j: self.optim_state['lb'][0][j] <= -1 and self.optim_state['ub'][0][j] >= 1)", props=props)
     c.mod()
     c.result = {"tuple": [{"arrspec": (2, [1, "self.D"], "num", False)}, {"arrspec": (2, [1, "self.D"], "num", False)}]}
     c.ens("search_box_inside_hard_box", "forall(self.D, lambda j: self.optim_state['lb'][0][j] <= result[0][0][j] and result[1][0][j] <= self.optim_state['ub'][0][j])",
-          top=True, props=["C18"])
-    c.ens("search_box_nonempty", "forall(self.D, lambda j: result[0][0][j] <= result[1][0][j])", top=True, props=["C18"])
+          top=True, props=props)
+    c.ens("search_box_nonempty", "forall(self.D, lambda j: result[0][0][j] <= result[1][0][j])", top=True, props=props)
+
+
+contract(B + "._update_search_bounds_", serves=["C18"])(lambda c: search_bounds_contract(c, ["C18"]))
+# the same contract as an instance for C01 (internal clause: every logged point lies in the transformed box - the search
+# candidates are projected onto this box): registered as a variant so that optimize's call site, which is not under this
+# contract's preconditions for C01, is not affected
+contract(B + "._update_search_bounds_#C01", serves=["C01"])(lambda c: search_bounds_contract(c, ["C01"]))
